@@ -438,7 +438,7 @@ def main():
         }
         if hasattr(b, 'coqchk'):
             ev['coverage']['coqchk_tail'] = b.coqchk
-        if not a.replay and os.path.realpath(REPO) == '/repo':     # private VERIF_REPO runs (seed vetting) leave the evidence alone
+        if not a.replay and os.path.realpath(REPO) == '/repo' and not os.environ.get('VERIF_NO_EVIDENCE'):     # private VERIF_REPO runs (seed vetting) leave the evidence alone
             os.makedirs(os.path.join(VERIF, 'evidence'), exist_ok=True)
             with open(os.path.join(VERIF, 'evidence', pid + '.json'), 'w') as f:
                 json.dump(ev, f, indent=1, default=str)
